@@ -1563,8 +1563,9 @@ class WasmToIrCompiler:
         test_value = self.pop_value()
         assert test_value.ty in [ir.i32, ir.i64]
         ir_typ = test_value.ty
-        option_labels = instruction.args[0]
-        default_label = option_labels.pop(-1)
+        # Note: do not modify the instruction, the module may be used again.
+        option_labels = instruction.args[0][:-1]
+        default_label = instruction.args[0][-1]
         for i, option_label in enumerate(option_labels):
             # Figure which block we must jump to:
             depth = option_label
